@@ -31,6 +31,18 @@ func c10Datagram(sh string, i int) []byte {
 			}
 		}
 	}
+	if strings.HasPrefix(sh, "sized-") {
+		// a well-formed message whose datagram is exactly n bytes long
+		var n int
+		fmt.Sscanf(sh, "sized-%d", &n)
+		base := len(mk(nil, "").Render())
+		for l := n - base; l >= 0 && l >= n-base-6; l-- {
+			if b := mk(fill(l, "SIZED"), "").Render(); len(b) == n {
+				return b
+			}
+		}
+		panic("harness: no datagram of " + sh)
+	}
 	switch sh {
 	case "small":
 		return mk(nil, "").Render()
@@ -252,6 +264,7 @@ func c10Run(c *Ctx) {
 		}
 	}
 	rec(nil)
+	c10SizeSweep(c, &idx)
 	// one datagram handled to quiescence (its buffer goes back to the pool), then a burst of three
 	// that queue up behind the parse goroutine
 	first := c10Shapes
@@ -283,9 +296,68 @@ func c10Run(c *Ctx) {
 	}
 }
 
+// c10Sizes: datagram lengths around every power of two (and the Ethernet MTU) up to the UDP maximum;
+// thorough: additionally every length from the smallest possible message up to 4200 bytes.
+func c10Sizes(thorough bool) []int {
+	var out []int
+	seen := map[int]bool{}
+	add := func(n int) {
+		if n >= 400 && n <= 65507 && !seen[n] {
+			seen[n] = true
+			out = append(out, n)
+		}
+	}
+	for p := 512; p <= 65536; p *= 2 {
+		add(p - 1)
+		add(p)
+		add(p + 1)
+	}
+	for _, n := range []int{1471, 1472, 1473, 1499, 1500, 1501, 65506, 65507} {
+		add(n)
+	}
+	if thorough {
+		for n := 400; n <= 4200; n++ {
+			add(n)
+		}
+	}
+	return out
+}
+
+func c10SizeSweep(c *Ctx, idx *int64) {
+	for _, n := range c10Sizes(c.Thorough()) {
+		z := fmt.Sprintf("sized-%d", n)
+		cases := []c10Case{
+			{Seq: []string{z, "small"}, BackToBack: true, Sources: 1},
+			{Seq: []string{z, "overdeclared"}, BackToBack: true, Sources: 1},
+			{Seq: []string{z, "body"}, BackToBack: true, Sources: 2},
+			{Seq: []string{"small", z}, BackToBack: true, Sources: 1},
+			{Seq: []string{"overdeclared-big", z}, BackToBack: true, Sources: 1},
+			{Seq: []string{z, z}, BackToBack: true, Sources: 1},
+			{Seq: []string{z, "overdeclared-big"}, BackToBack: false, Sources: 1},
+			{Seq: []string{"small", z, "overdeclared", "body"}, BackToBack: true, Sources: 1, FirstAlone: true},
+			{Seq: []string{z, "small", z, "overdeclared"}, BackToBack: true, Sources: 1, FirstAlone: true},
+		}
+		for _, cs := range cases {
+			*idx++
+			if !c.Mine(*idx) || c.Expired() {
+				continue
+			}
+			cl, detail := c10Eval(cs)
+			c.Res.Evaluations++
+			c.Res.Executions++
+			c.Res.States++
+			c.Res.Transitions += int64(len(cs.Seq))
+			c.Res.Nontrivial++
+			if cl != "" {
+				c.Violate(cl+"|size-boundary|"+z, cl, fmt.Sprintf("sequence %v (back-to-back=%v, sources=%d, first alone=%v):\n%s", cs.Seq, cs.BackToBack, cs.Sources, cs.FirstAlone, detail), cs)
+			}
+		}
+	}
+}
+
 func init() {
 	addCheck(&Check{ID: "C10", Level: "model_checking",
-		Rule: "all sequences of length 1-3 (thorough 1-4) over a 12-shape datagram alphabet (small, 60 KiB with distinctive filler, with body, declared length larger / much larger / smaller than the payload, cut inside start line / header / blank line / body, blanks only, two messages in one datagram), delivered with quiescence in between (the LIFO pool recycles the dirty buffer) and back-to-back, from one and from two sources, plus {any datagram handled to quiescence, then a burst of three}; differential oracle: what is relayed for a datagram inside the sequence equals byte for byte (fresh branch masked) what a fresh world relays for it alone, and incomplete / over-declared datagrams are never relayed; schedule exploration of the receive / parse / loop goroutines under the race detector: see the race tier; non-trivial = sequence of at least two datagrams",
+		Rule: "all sequences of length 1-3 (thorough 1-4) over a 12-shape datagram alphabet (small, 60 KiB with distinctive filler, with body, declared length larger / much larger / smaller than the payload, cut inside start line / header / blank line / body, blanks only, two messages in one datagram), delivered with quiescence in between (the LIFO pool recycles the dirty buffer) and back-to-back, from one and from two sources, plus {any datagram handled to quiescence, then a burst of three}, plus a size sweep (well-formed datagrams of exactly n bytes for n around every power of two and the MTU up to 65507 - thorough: also every n in 400..4200 - each in nine burst patterns with small / over-declared / equal-sized neighbours); differential oracle: what is relayed for a datagram inside the sequence equals byte for byte (fresh branch masked) what a fresh world relays for it alone, and incomplete / over-declared datagrams are never relayed; schedule exploration of the receive / parse / loop goroutines under the race detector: see the race tier; non-trivial = sequence of at least two datagrams",
 		Run:  c10Run,
 		Replay: func(c *Ctx, raw json.RawMessage) string {
 			var cs c10Case
